@@ -285,7 +285,9 @@ def r_filter(ctx):
                 elif p and needle[0] == 'bin' and needle[1] == '*':
                     found['run'] += 1
                     a, b = needle[2], needle[3]
-                    a_is_letter = a[0] == 'iter' or (a[0] == 'sub' and a[1] == ('c', 'ACGT'))
+                    def _one(x):
+                        return x[0] == 'c' and isinstance(x[1], str) and len(x[1]) == 1
+                    a_is_letter = a[0] == 'iter' or (a[0] == 'sub' and a[1] == ('c', 'ACGT')) or _one(a)
                     cnt = b if a_is_letter else a
                     letter = a if a_is_letter else b
                     ca = affine(cnt)
@@ -295,6 +297,10 @@ def r_filter(ctx):
                                  sorted(letter[1][1]) == sorted('ACGT')) or \
                         (letter[0] == 'sub' and letter[1] == ('c', 'ACGT') and letter[2][0] in ('iter', 'idx') and
                          (letter[2][1] == ('c', 'ACGT') or (is_call(letter[2][1], 'builtins.range') and letter[2][1][2] == (('c', 4),))))
+                    if _one(letter) and letter[1] in 'ACGT':
+                        # a loop over the four letters written out (or unrolled): each test names one letter, all four must occur
+                        is_letter = True
+                        found.setdefault('run_letters', set()).add(letter[1])
                     okr = ca is not None and aff_eq(ca, {r: 1, 1: 1}) and is_letter
                     run.check(okr, 'R-FILTER', f, 'run-pattern=r+1', nd.lineno, 'forbidden run is r+1 equal letters of ACGT',
                               'the forbidden homopolymer pattern is %s; required letter * (max_homopolymer_runs + 1) for each '
@@ -380,6 +386,10 @@ def r_filter(ctx):
     valid_src = ast.unparse(f.cls) if f.cls is not None else ast.unparse(f.node)
     ingredients = {'char': char_ing, 'run': valid_src.count('max_homopolymer_runs') >= 4,
                    'motif': valid_src.count('undesired_motifs') >= 4, 'rc': rc_ing}
+    if found.get('run_letters') and found['run_letters'] != set('ACGT'):
+        run.refute('R-FILTER', f, 'run-pattern:all-four-letters', f.node.lineno,
+                   'homopolymer runs are only tested for the letters %s' % sorted(found['run_letters']),
+                   inputs='runs of %s' % sorted(set('ACGT') - found['run_letters']))
     missing = [k_ for k_ in ('char', 'run', 'motif', 'rc') if found[k_] < 1]
     gone = [k_ for k_ in missing if not ingredients[k_]]
     _tri(run, not missing, bool(gone), 'R-FILTER', f,
